@@ -152,3 +152,48 @@ Section Assemble.
     exists out. split; [exact Hout | rewrite <- Heq; exact Hout].
   Qed.
 End Assemble.
+
+(* ------------------------------------------------------------------ *)
+(* RandomStateService: construction, seed property, reseed              *)
+Lemma K_rs_init s : rs_init_seed s = s /\ rs_init_state_arg s = s. Proof. split; reflexivity. Qed.
+Lemma K_rs_seed_prop s : rs_seed_prop s = s. Proof. reflexivity. Qed.
+Lemma K_rs_reseed s : rs_reseed_seed s = s /\ rs_reseed_state_arg s = s. Proof. split; reflexivity. Qed.
+Lemma K_rs_reseed_unconditional : rs_reseed_nif = 0 /\ rs_reseed_nreturn = 0.
+Proof. split; reflexivity. Qed.
+
+Section Reseed.
+  Variables rng val : Type.
+  Variable seed_rng : Z -> rng.
+  Variable draw : rng -> req -> val * rng.
+
+  Lemma rss_new_spec s :
+    rss_new rng seed_rng s = {| rs_seed := s; rs_st := seed_rng s |}
+    /\ rss_seed rng (rss_new rng seed_rng s) = s.
+  Proof.
+    unfold rss_new, rss_seed. destruct (K_rs_init s) as [H1 H2]. rewrite H1, H2.
+    cbn [rs_seed]. rewrite K_rs_seed_prop. split; reflexivity.
+  Qed.
+
+  (* after reseed(s) the service is indistinguishable from a fresh
+     RandomStateService(s), whatever was drawn before and whatever seed it
+     carried - in particular when it already carried s *)
+  Theorem rss_reseed_fresh (r : rss rng) (s : Z) :
+    rss_reseed rng seed_rng r s = rss_new rng seed_rng s.
+  Proof.
+    unfold rss_reseed, rss_new. destruct K_rs_reseed_unconditional as [H1 H2]. rewrite H1, H2.
+    cbn [Z.eqb andb]. destruct (K_rs_reseed s) as [H3 H4]. destruct (K_rs_init s) as [H5 H6].
+    rewrite H3, H4, H5, H6. reflexivity.
+  Qed.
+
+  Theorem rss_reseed_stream (r : rss rng) (s : Z) (qs : list req) :
+    let run := fix run (qs : list req) (x : rss rng) : list val :=
+                 match qs with
+                 | [] => []
+                 | q :: rest => let '(v, x') := rss_draw rng val draw x q in v :: run rest x'
+                 end in
+    run qs (rss_reseed rng seed_rng r s) = run qs (rss_new rng seed_rng s)
+    /\ rss_seed rng (rss_reseed rng seed_rng r s) = s.
+  Proof.
+    cbv zeta. rewrite rss_reseed_fresh. split; [reflexivity | apply rss_new_spec].
+  Qed.
+End Reseed.
